@@ -95,7 +95,13 @@ impl Interval {
 
     /// Returns the quadrant for trigonometric functions
     fn quadrant(angle: f32) -> Quadrant {
-        match (angle * 2.0 / PI).floor().rem_euclid(4.0) as u8 {
+        // This must be computed in f64: in f32 the quotient is off by a whole
+        // quadrant for angles above a few thousand, which makes `sin` / `cos`
+        // return intervals that do not contain the function's values
+        match (f64::from(angle) * 2.0 / std::f64::consts::PI)
+            .floor()
+            .rem_euclid(4.0) as u8
+        {
             0 => Quadrant::Q0,
             1 => Quadrant::Q1,
             2 => Quadrant::Q2,
